@@ -839,6 +839,10 @@ func c18worker(t *testing.T) {
 			return ops
 		},
 		Canon: func(h []c18op) string {
+			if capped.Load() || time.Since(start) > budget {
+				capped.Store(true)
+				return "" // out of time: the rest of this level is not explored (reported as not exhaustive)
+			}
 			if len(h) > 0 {
 				note(h, h[len(h)-1].Class)
 			}
@@ -854,6 +858,9 @@ func c18worker(t *testing.T) {
 			return m.canon() + " || " + f.mfs.VerifDump() + " || staging " + f.staging()
 		},
 		Visit: func(h []c18op) {
+			if capped.Load() {
+				return
+			}
 			cls := "initial"
 			if len(h) > 0 {
 				cls = h[len(h)-1].Class
@@ -875,12 +882,17 @@ func c18worker(t *testing.T) {
 	for k := range res.Keys {
 		rep.Outcome(k)
 	}
-	rep.Set("depth_completed", res.Depth)
+	if capped.Load() && res.Depth > 0 {
+		rep.Set("depth_completed", res.Depth-1) // the level that was running when the time budget ended is incomplete
+		rep.Set("depth_partially_explored", res.Depth)
+	} else {
+		rep.Set("depth_completed", res.Depth)
+	}
 	rep.Set("deepened_roots", res.DeepenedRoots)
 	rep.Set("states_beyond_base_depth", res.StatesBeyondMaxDepth)
 	rep.Set("bfs_workers", workers)
 	if capped.Load() {
-		rep.NotExhaustive(fmt.Sprintf("time budget hit at depth %d after %d states", res.Depth, res.States))
+		rep.NotExhaustive(fmt.Sprintf("time budget hit while exploring depth %d, after %d states; every shallower depth is complete", res.Depth, res.States))
 	}
 	rep.Sample(map[string]interface{}{"deepest_history": fmt.Sprint(res.Deepest)})
 }
